@@ -185,7 +185,10 @@ fn add_reference_items(
 ) {
     if with_rules {
         for rule in file.rule_decls(cst) {
-            let name = rule.name(cst).unwrap().0;
+            let Some((name, _)) = rule.name(cst) else {
+                // the name is missing if there was a syntax error
+                continue;
+            };
             if name.starts_with(|c: char| c.is_uppercase()) {
                 // some syntax errors may cause token references
                 // to be parsed as rule declarations
@@ -216,8 +219,12 @@ fn add_reference_items(
     }
     if with_tokens {
         for token in file.token_decls(cst) {
+            let Some((name, _)) = token.name(cst) else {
+                // the name is missing if there was a syntax error
+                continue;
+            };
             items.push(CompletionItem {
-                label: token.name(cst).unwrap().0.to_string(),
+                label: name.to_string(),
                 label_details: Some(CompletionItemLabelDetails {
                     description: Some("Token".to_string()),
                     ..Default::default()
